@@ -142,7 +142,48 @@ func checkSchedulerHelpers(p *core.Prog, r *core.Report) {
 			}
 			lf := unitFields(c.(*ssa.Call).Call.Args[1])
 			if lf != nil && len(lf["Segment"]) == 1 && len(lf["Stage"]) == 1 && isFieldOfParam(lf["Segment"][0], um, "Segment") && core.SkipConv(lf["Stage"][0]) == ssa.Value(ph) {
-				okShadow = !cs.neq && len(cs.consts) == 1 && cs.consts[0] == "UnitShadowed"
+				// the re-labelling is reachable, within the iteration, only over the edge on which that state == Shadowed
+				// (written `== Shadowed { … }` or `!= Shadowed { continue }`)
+				if len(cs.consts) != 1 || cs.consts[0] != "UnitShadowed" {
+					continue
+				}
+				shadowedVal := ""
+				for _, k := range core.EnumConsts(p.Named(pkgStage, "UnitState")) {
+					if k.Name() == "UnitShadowed" {
+						shadowedVal = k.Val().ExactString()
+					}
+				}
+				var eq []core.Edge
+				core.Instrs(mj, func(in ssa.Instruction) {
+					ifi, ok := in.(*ssa.If)
+					if !ok {
+						return
+					}
+					onT, onF, ok := core.CondRelation(ifi.Cond, func(v ssa.Value) bool { return v == c }, func(v ssa.Value) bool {
+						k, ok := v.(*ssa.Const)
+						return ok && k.Value != nil && k.Value.ExactString() == shadowedVal
+					})
+					if !ok {
+						return
+					}
+					if onT == core.OrdEQ {
+						eq = append(eq, core.Edge{From: ifi.Block(), Idx: 0})
+					}
+					if onF == core.OrdEQ {
+						eq = append(eq, core.Edge{From: ifi.Block(), Idx: 1})
+					}
+				})
+				trObj := p.FuncObj(pkgStage, "Stages.transition")
+				okShadow = len(eq) > 0
+				for _, t := range core.FindInstrsIn(mj, core.IsCallTo(trObj)) {
+					if !l.Body[t.Block()] {
+						continue
+					}
+					q := core.PathQuery{Fn: mj, CutEdge: func(e core.Edge) bool { return containsEdge(eq, e) }, CutInstr: func(x ssa.Instruction) bool { return x == l.Header.Instrs[0] }}
+					if _, reach := q.CanReach(c.(*ssa.Call), func(x ssa.Instruction) bool { return x == t }); reach {
+						okShadow = false
+					}
+				}
 			}
 		}
 	}
@@ -179,7 +220,7 @@ func checkWorkerPool(p *core.Prog, r *core.Report) {
 		fn := p.Func(pkgWork, t.fn)
 		r.Touch(core.FuncName(fn))
 		var guard []core.Edge
-		core.Instrs(fn, func(in ssa.Instruction) {
+		core.InstrsDeep(fn, func(in ssa.Instruction) {
 			ifi, ok := in.(*ssa.If)
 			if !ok {
 				return
@@ -243,7 +284,7 @@ func checkWorkerPool(p *core.Prog, r *core.Report) {
 	r.Check(okB, "C05.R1", "WorkerPool.Borrow/same-slot", "Borrow returns the worker of the very slot it marked Working", "returned worker and marked slot differ", p.Pos(b.Pos()))
 	rf := p.Func(pkgWork, "WorkerPool.Return")
 	okR := false
-	core.Instrs(rf, func(in ssa.Instruction) {
+	core.InstrsDeep(rf, func(in ssa.Instruction) {
 		ifi, ok := in.(*ssa.If)
 		if !ok {
 			return
@@ -294,7 +335,7 @@ func checkShadowOnlyPending(p *core.Prog, r *core.Report) {
 		unit := args[1]
 		// edges on which the unit's own state is known to be Pending or Shadowed
 		var okEdges []core.Edge
-		core.Instrs(fn, func(in ssa.Instruction) {
+		core.InstrsDeep(fn, func(in ssa.Instruction) {
 			ifi, isIf := in.(*ssa.If)
 			if !isIf {
 				return
@@ -324,7 +365,7 @@ func checkShadowOnlyPending(p *core.Prog, r *core.Report) {
 		// stage that is Merging / PartialPresent / Completed got its data without producing this unit's
 		var nextOK []core.Edge
 		nNext := 0
-		core.Instrs(fn, func(in ssa.Instruction) {
+		core.InstrsDeep(fn, func(in ssa.Instruction) {
 			ifi, isIf := in.(*ssa.If)
 			if !isIf {
 				return
